@@ -1,0 +1,38 @@
+//go:build verif
+
+package entity
+
+// Contracts for ids and interleaved (combined) ids (property C13).
+// Comment-only file: it is compiled only with -tags verif and contains no code.
+
+//@ spec func isSec(i int) bool = i == 1 || i == 3 || i == 5 || i == 9 || (i >= 10 && i % 5 == 4)
+//@ spec func secCount(i int) int = (i > 1 ? 1 : 0) + (i > 3 ? 1 : 0) + (i > 5 ? 1 : 0) + (i > 9 ? 1 : 0) + (i >= 10 ? (i - 10) / 5 : 0)
+
+//@ lemma secCount_step: forall i int :: 0 <= i ==> secCount(i + 1) == secCount(i) + (isSec(i) ? 1 : 0)
+//@   props C13
+//@ lemma secCount_bounds: secCount(0) == 0 && secCount(64) == 14 && (forall i int :: 0 <= i && i < 64 && isSec(i) ==> secCount(i) < 14) && (forall i int :: 0 <= i && i < 64 && !isSec(i) ==> i - secCount(i) < 50)
+//@   props C13
+
+//@ func CombineIds
+//@   props C13
+//@   nopanic
+//@   requires len(primary) >= 50 && len(secondary) >= 14
+//@   ensures [len]    len(result) == 64
+//@   ensures [layout] forall k int :: { result[k] } 0 <= k && k < 64 ==> result[k] == (isSec(k) ? secondary[secCount(k)] : primary[k - secCount(k)])
+//@   loop 1
+//@     invariant 0 <= i && i <= 64
+//@     invariant len(strings.builderContent[&id]) == i
+//@     invariant primary == primary0[i - secCount(i):] && secondary == secondary0[secCount(i):]
+//@     invariant forall k int :: { strings.builderContent[&id][k] } 0 <= k && k < i ==> strings.builderContent[&id][k] == (isSec(k) ? secondary0[secCount(k)] : primary0[k - secCount(k)])
+//@     decreases 64 - i
+
+//@ func SeparateIds
+//@   props C13
+//@   nopanic
+//@   requires [ascii] forall k int :: { prefix[k] } 0 <= k && k < len(prefix) ==> prefix[k] < 128
+//@   ensures [lengths] len(primaryPrefix) + len(secondaryPrefix) == len(prefix) && len(secondaryPrefix) == secCount(len(prefix))
+//@   ensures [layout]  forall k int :: { prefix[k] } 0 <= k && k < len(prefix) ==> (isSec(k) ? secondaryPrefix[secCount(k)] : primaryPrefix[k - secCount(k)]) == prefix[k]
+//@   loop 1
+//@     invariant 0 <= rangepos && rangepos <= len(prefix)
+//@     invariant len(strings.builderContent[&primary]) == rangepos - secCount(rangepos) && len(strings.builderContent[&secondary]) == secCount(rangepos)
+//@     invariant forall k int :: { prefix[k] } 0 <= k && k < rangepos ==> (isSec(k) ? strings.builderContent[&secondary][secCount(k)] : strings.builderContent[&primary][k - secCount(k)]) == prefix[k]
